@@ -251,23 +251,49 @@ theorem getTariffs_eq_getTariffsUs {K : Type} [LT K] [DecidableLT K] (l : List (
       (start + (t : Int) * ((period : Int) * 60)) * 1000000 := by ring
   rw [this, Int.mul_ediv_cancel _ (by norm_num)]
 
-/-- `Interface.get_prices(n, idx)`: element `t` is the tariff at `sim.start + (idx + t)·period`. -/
+/-- `Interface.get_prices(n, start)`: element `t` is the tariff at `sim.start + (q + t)·period`,
+    where `q` is the EXPLICIT `start` whenever one is given (0 included, whatever the current
+    iteration is) and the current iteration only when `start` is `None`. -/
 theorem interface_prices_aligned {K : Type} [LT K] [DecidableLT K] (l : List (Schedule K))
-    (simStart : Int) (period : Nat) (idx : Int) (n : Nat) (v : List K)
-    (h : interfacePrices l simStart period idx n = .ok v) :
+    (simStart : Int) (period iteration : Nat) (start : Option Int) (n : Nat) (v : List K)
+    (h : interfacePrices l simStart period iteration start n = .ok v) :
     v.length = n ∧ ∀ t (ht : t < v.length),
-      getTariffAt l (simStart + (idx + (t : Int)) * ((period : Int) * 60)) = .ok v[t] := by
+      getTariffAt l (simStart + (queryStep iteration start + (t : Int)) * ((period : Int) * 60)) = .ok v[t] := by
   unfold interfacePrices at h
   obtain ⟨hlen, hv⟩ := (getTariffs_eq_map l _ n period v).mp h
   refine ⟨hlen, fun t ht => ?_⟩
   have := hv t ht
   rw [← this]; congr 1; ring
 
-/-- `Interface.get_demand_charge(idx)` is the demand charge at `sim.start + idx·period` -/
+/-- an explicit start is taken as given — also `start = 0` while the simulation is at a later
+    iteration — and `None` means the current iteration -/
+theorem interface_explicit_start {K : Type} [LT K] [DecidableLT K] (l : List (Schedule K))
+    (simStart : Int) (period it it' : Nat) (k : Int) (n : Nat) :
+    interfacePrices l simStart period it (some k) n = interfacePrices l simStart period it' (some k) n ∧
+    interfaceDemand l simStart period it (some k) = interfaceDemand l simStart period it' (some k) ∧
+    interfacePrices l simStart period it (some 0) n = getTariffs l simStart n period ∧
+    interfacePrices l simStart period it none n = interfacePrices l simStart period 0 (some (it : Int)) n := by
+  refine ⟨rfl, rfl, ?_, rfl⟩
+  unfold interfacePrices queryStep
+  simp
+
+/-- `Interface.get_demand_charge(start)` is the demand charge at `sim.start + q·period` -/
 theorem interface_demand_aligned {K : Type} [LT K] [DecidableLT K] (l : List (Schedule K))
-    (simStart : Int) (period : Nat) (idx : Int) :
-    interfaceDemand l simStart period idx = getDemandAt l (simStart + idx * ((period : Int) * 60)) := by
+    (simStart : Int) (period iteration : Nat) (start : Option Int) :
+    interfaceDemand l simStart period iteration start =
+      getDemandAt l (simStart + queryStep iteration start * ((period : Int) * 60)) := by
   unfold interfaceDemand; congr 1; ring
+
+/-- summing `get_prices(T, 0)·power·dt` over the whole run is `energy_cost` -/
+theorem energy_cost_eq_interface_sum {K : Type} [Field K] [LinearOrder K] (l : List (Schedule K))
+    (simStart : Int) (period iteration : Nat) (agg : List K) :
+    energyCost l simStart period agg =
+      (interfacePrices l simStart period iteration (some 0) agg.length).map
+        (fun prices => dotK prices agg * ((period : K) / ((60 : Nat) : K))) := by
+  have h0 := (interface_explicit_start l simStart period iteration iteration 0 agg.length).2.2.1
+  rw [h0]
+  unfold energyCost
+  cases getTariffs l simStart agg.length period <;> rfl
 
 /-! ### costs -/
 
